@@ -180,6 +180,20 @@ def gen_case(rng, tier):
         docs = [d_old] + docs + [d_new] if rng.random() < 0.5 and not strict_elem else [d_old, d_new]
         if strict_elem and rng.random() < 0.5:
             docs = [M([['z', emit.S(1)]])] + docs
+    if rng.random() < 0.2:
+        # a priority-tagged list (no tagged ancestor) holding untagged containers, met by a competing document: the priority reaches
+        # the nested content whatever markers sit on the nested containers, the enclosing mappings or the document root
+        from .c16 import put
+        tl = rng.choice(POOL) + '_tl'
+        pr = rng.choice([-1, -1, 1])
+        inner = M([['units', emit.S(16)], ['sub', M([['a', emit.S(1)]])]])
+        lst = emit.L([inner, emit.L([emit.S(1), emit.S(2)])] if rng.random() < 0.5 else [inner], prio=pr)
+        d_a, d_b = M([[tl, lst]]), M([[tl, emit.L([M([['units', emit.S(64)], ['sub', M([['a', emit.S(2)]])]])])]])
+        if rng.random() < 0.6:
+            d_b['prio'] = pr
+        docs = [d_a] + docs + [d_b] if rng.random() < 0.4 else [d_a, d_b]
+        pos = {id(n): i for i, (_, n) in enumerate(emit.walk(docs[0]))}
+        forced_sites += [(0, pos[id(inner)]), (0, pos[id(inner['items'][1][1])]), (0, 0)]
     style = rng.choice(['flow', 'block'])
     E = lambda d: emit.emit(d, style)
     base = [E(d) for d in docs]
